@@ -54,7 +54,7 @@ def imageStr (recs : List Ent) : String :=
 
 def fileObs (s : FileStore) (crash : Bool) (pts : List (String × List Ent)) : String :=
   if s.hole then "unmodelled" else
-  s!"{s.last} {showEnts s.entries} - buffered ok disk={showEnts s.recs} dur={imageStr s.dur}" ++
+  s!"{s.last} {showEnts s.entries} - buffered ok disk={showEnts s.recs} dur={imageStr s.dur} re={imageStr s.recs}" ++
   (if crash then " {" ++ ",".intercalate (pts.map fun p => s!"{p.1}>{imageStr p.2}") ++ "}" else "")
 
 def rocksObs (s : RocksStore) : String :=
@@ -114,6 +114,7 @@ structure Obs where
   lookup : String
   disk : Option String
   dur : Option String
+  re : Option String
   images : List (String × String)    -- (hook name, entries of the reopened image)
 
 def parseObs (s : String) : Option Obs :=
@@ -132,7 +133,7 @@ def parseObs (s : String) : Option Obs :=
           | _ => match acc.reverse with
             | (n, v) :: r => r.reverse ++ [(n, v ++ "," ++ part)]
             | [] => acc) []
-    some { last, entries, boundary, durable, lookup, disk := find "disk=", dur := find "dur=",
+    some { last, entries, boundary, durable, lookup, disk := find "disk=", dur := find "dur=", re := find "re=",
            images := imgs.map fun ((n, v) : String × String) => (n, ((v.splitOn "/").headD "")) }
   | _ => none
 
@@ -146,6 +147,8 @@ def judgeOp (eng : String) (rBefore rAfter : Ref) (op : Op) (cleanBefore : Bool)
       | .reopen | .crash => if isFile then "file-reopen-entries-differ" else "rocks-reopen-entries-differ"
       | _ => "entries-differ-from-reference")
   else if o.last != toString rAfter.last then some "last-index-not-max-key"
+  -- a store opened on the file as it is now must show the live entries (F19b shows up here first)
+  else if isFile && o.re.isSome && o.re != some s!"{want}/{rAfter.last}" then some "file-reopen-entries-differ"
   else
     -- crash images (only judged when the file was clean before the op, i.e. held exactly the reference map)
     let old := showEnts rBefore.m
